@@ -5,7 +5,8 @@ from hypothesis import strategies as st
 from vf import gens
 from vf.runner import hyp_run, run_cases, guard, fail, exc_failure
 
-RULE = ("cells from 7 families (triclinic angles constructed inside the positive-volume region, a,b,c in "
+RULE = ("(sub-check cells_bigbox: the same with search boxes of up to 150 000 / 400 000 points) " +
+        "cells from 7 families (triclinic angles constructed inside the positive-volume region, a,b,c in "
         "[2,30] A, angles in [55,125] deg) x centring P/A/B/C/I/F/R x d* limit (bounded so the brute-force "
         "box holds <= 2e4 (quick) / 1.2e5 (thorough) points) x ring tolerance x a second d* limit on the same "
         "object (cache histories of gethkls and of makerings big/small/big); limits placed exactly on a reflection's d*; ring tolerance changed between two makerings calls with the same limit; indexer.assigntorings on peaks placed on / near the reflections of pseudo-symmetric cells whose rings lie 0.4-6 tolerances apart; oracle = brute-force box enumeration with the harness's own reciprocal metric "
